@@ -223,7 +223,7 @@ def _cmp(got, ref, maj, tau):
             return float('inf')
         gq = Q.QC.of(complex(g)) if np.iscomplexobj(g) else Q.QC.of(float(g))
         e = (gq - r).abs1()
-        den = m.re if m.re > 0 else Q.Fraction(1, 10 ** 300)
+        den = m.re if m.re > Q.Fraction(1, 10 ** 290) else Q.Fraction(1, 10 ** 290)          # (terms below 1e-290 underflow legitimately)
         q = float(e / den)
         if q > worst:
             worst = q
